@@ -743,6 +743,9 @@ class Connection(ExportImport):
                         o._p_activate()
                     except Exception:
                         pass
+                if isinstance(o, Blob):
+                    # Its data are in a file of the savepoint storage.
+                    o._take_back_savepoint_data()
                 del self._cache[oid]
                 if o._p_changed:
                     o._p_changed = False
